@@ -315,8 +315,10 @@ class DistributedRateLimiter(Entity):
             )
 
             # Create forwarding event to downstream entity
+            # The store round-trips above advanced the clock: stamp the forward with
+            # the current time (``now`` is the arrival instant and lies in the past).
             forward_event = Event(
-                time=now,
+                time=self._clock.now if self._clock is not None else now,
                 event_type=f"forward::{event.event_type}",
                 target=self._downstream,
                 context=event.context.copy(),
